@@ -318,7 +318,7 @@ var (
 	DefBig = &MsgDef{Name: "VERIF_BIG", ID: 184, Fields: []FieldDef{
 		{Type: "uint8_t", Name: "data", ArrLen: 255},
 	}}
-	DefHi = &MsgDef{Name: "VERIF_HI", ID: 300, Fields: []FieldDef{
+	DefHi = &MsgDef{Name: "VERIF_HI", ID: 70000, Fields: []FieldDef{
 		{Type: "uint32_t", Name: "x"},
 		{Type: "int16_t", Name: "y"},
 	}}
